@@ -52,6 +52,8 @@ Section P.
     | Committed => pending m = None /\ durable m = apply_all ws db
     | RolledBack => pending m = None /\ durable m = db
     | Closed => pending m = None /\ durable m = db /\ ws = []
+    | FailedIn => durable m = db
+    | FailedOut => pending m = None /\ durable m = db
     end.
 
   Lemma step_reader m e : is_reader e = true ->
@@ -76,7 +78,7 @@ Section P.
       assert (writes_of [e] = []) as -> by (destruct e; simpl in R; try discriminate; reflexivity).
       subst. rewrite app_nil_r. eapply winv_ext; eauto.
     - destruct e; simpl in NM, R; try discriminate;
-      destruct s as [| |b| | |]; simpl in D; try discriminate;
+      destruct s as [| |b| | | | |]; simpl in D; try discriminate;
       try (destruct b; simpl in D; try discriminate);
       inversion D; subst; clear D; simpl in *; rewrite ?app_nil_r;
       repeat match goal with H : _ /\ _ |- _ => destruct H end;
@@ -159,7 +161,7 @@ Section P.
     intros NM D. destruct (disciplined_op _ _ _ D) as [s1 [D1 DE]].
     unfold op_trace. rewrite sem_op_start, run_app. simpl.
     pose proof (body_inv db body s1 NM D1) as I.
-    destruct s1 as [| |[]| | |]; destruct ok; simpl in I, DE; try discriminate; try tauto;
+    destruct s1 as [| |[]| | | | |]; destruct ok; simpl in I, DE; try discriminate; try tauto;
       destruct I as [P [Dd W]]; rewrite ?W; simpl; auto.
   Qed.
 
